@@ -716,6 +716,33 @@ def gen_c07(seed, count):
     out = []
     for idx in range(count):
         r = random.Random((seed << 20) ^ idx ^ 0xC07)
+        if idx % 5 == 4:
+            # a long run of consecutive identifiers in flight (8 QoS 2 exchanges awaiting PUBCOMP plus unacknowledged
+            # SUBSCRIBEs: up to 14), and the counter placed at or just before its beginning
+            nx = lambda p: 1 if p == 65535 else p + 1
+            start = r.choice([65529, 65530, 65535, 100, 1])
+            c = Case(rx=64, tx=1152)
+            c.connect(connack(0, 0, [(33, 8)]))
+            c.drop()
+            c.setpid(start)
+            c.connect(connack(1, 0, [(33, 8)]))
+            pid = start
+            for j in range(8):
+                c.publish(b'a', bytes([65 + j]), qos=2)
+                c.feed(ack(5, pid)).poll()
+                pid = nx(pid)
+            for j in range(r.randint(1, 6)):
+                c.subscribe(((b't/' + bytes([97 + j]), 0),))
+                pid = nx(pid)
+            c.drop()
+            c.setpid(r.choice([start, start, nx(start), 65535 if start == 1 else start - 1]))
+            c.connect(connack(1, 0, [(33, 8)]))
+            c.poll()
+            c.subscribe(((b'new/one', 0),))
+            c.unsubscribe((b'new/two',))
+            c.poll()
+            out.append(c.line())
+            continue
         c = Case(rx=64, tx=r.choice([256, 1152]))
         start = r.choice([65531, 65532, 65533, 65534, 65535, 65535, 1])
         # a fresh session restarts the counter at 1: the hook is applied between the first connection and its resumption
@@ -780,6 +807,50 @@ def gen_c07(seed, count):
 
 
 PYGEN['py_c07'] = gen_c07
+
+
+def gen_c03(seed, count):
+    """QoS 2 exchanges with the send window completely full (8 unresolved publishes, QoS 1 and QoS 2 mixed): PUBRECs
+    arrive in any order while nothing else can be sent, some with a failure code, PUBCOMPs for some; the connection is
+    lost and resumed in the middle and the remaining acknowledgements arrive afterwards."""
+    out = []
+    for idx in range(count):
+        r = random.Random((seed << 20) ^ idx ^ 0xC03)
+        c = Case(rx=64, tx=1152)
+        c.connect(connack(0, 0, [(33, r.choice([8, 8, 20, 65535]))]))
+        n = r.choice([8, 8, 8, 7, 6])
+        kinds = {}
+        for pid in range(1, n + 1):
+            q = r.choice([2, 2, 2, 1])
+            c.publish(b'a', bytes([64 + pid]), qos=q)
+            kinds[pid] = q
+        order = [p for p in kinds if kinds[p] == 2]
+        r.shuffle(order)
+        recd = []
+        for pid in order[:r.randint(1, len(order))]:
+            c.feed(ack(5, pid, r.choice([None, None, None, 0, 0x10, 0x80])))
+            c.poll()
+            recd.append(pid)
+        if r.random() < 0.7:
+            c.drop()
+            c.connect(connack(1, 0, [(33, 8)]))
+            c.poll(2)
+        for pid in recd[:r.randint(0, len(recd))]:
+            c.feed(ack(7, pid))
+            c.poll()
+        for pid in order:
+            if pid not in recd and r.random() < 0.6:
+                c.feed(ack(5, pid))
+                c.poll()
+        c.publish(b'a', b'late', qos=r.choice([1, 2]))
+        c.poll(2)
+        if r.random() < 0.3:
+            c.ev(*([(0, 1000)] * 5 + [(0, r.choice([1, 2, 3, 1000])) for _ in range(r.randint(5, 60))]))
+        out.append(c.line())
+    return out
+
+
+PYGEN['py_c03'] = gen_c03
 
 
 def gen_c06(seed, count):
